@@ -435,9 +435,12 @@ class UnitResult:
         self.gen_time = 0.0
 
 
-def verify_unit(index: RepoIndex, contract: Contract) -> list[UnitResult]:
+def verify_unit(index: RepoIndex, contract: Contract, only=None) -> list[UnitResult]:
     results = []
-    for variant in contract.variants:
+    variants = list(contract.variants)
+    if only is not None:
+        variants = [variants[only]]
+    for variant in variants:
         t0 = time.time()
         ctx = VerifyCtx(index, contract, variant)
         res = UnitResult(ctx.unit)
